@@ -101,6 +101,14 @@ def generate(R, tier):
         yield {"stream": "http", "http": bytes(b).hex()}
     for m in H.line_shapes():
         yield {"stream": "http-line-shapes", "http": m.hex()}
+    # packets that get as far as the window test of the database's mss*N signatures (everything else matches), for every peer-MSS argument
+    for fl, sec_ttl in ((2, 64), (0x12, 64)):
+        for mss in (100, 111, 1460):
+            for win in (8191, 65535, 0, 14600, mss * 10):
+                for syn in (None, 0, 1, 11, 12, 13, 24, 112, 65535):
+                    spec = {"v": 4, "ttl": 60, "id": 0 if fl == 0x12 else 1, "df": True, "flags": fl, "ack": 7 if fl == 0x12 else 0, "win": win,
+                            "opts": W.o_mss(mss) + ("" if fl == 0x12 else W.o_sok() + W.o_ts(5, 0) + "01" + W.o_ws(7))}
+                    yield {"stream": "reaches-window-test", "v": 4, "raw": W.build(spec).hex(), "syn_mss": syn}
     # messages that MATCH a record naming a software, with every kind of User-Agent / Server value (absent, empty, blank, other)
     for eol in (b"\r\n", b"\n"):
         for ua in (None, b"", b" ", b"\t", b"curl/7.81", b"CURL", b"x", b"\xff"):
@@ -158,7 +166,8 @@ def impl_init():
                 prev.received -= c["up"][1]
             except Exception:  # noqa  (never a timeout: that one must reach the worker)
                 prev = last
-        out = {"tcp": run(lambda: fingerprint_tcp(pkt, options=opts)), "mtu": run(lambda: fingerprint_mtu(pkt, options=opts)),
+        syn_mss = c["syn_mss"] if "syn_mss" in c else [None, 0, 12, 1, 11, 13, 24, 1460, 65535][len(raw) % 9]          # the peer-MSS argument is input too (12: peer MSS - 12 = 0)
+        out = {"tcp": run(lambda: fingerprint_tcp(pkt, syn_mss=syn_mss, options=opts)), "mtu": run(lambda: fingerprint_mtu(pkt, options=opts)),
                "uptime": run(lambda: fingerprint_uptime(pkt, prev, options=opts))}
         try:
             k = parse_packet(pkt)
